@@ -122,3 +122,52 @@ Proof.
   unfold no_setcfg, codec_fixed. intro H. rewrite forallb_forall in H. apply forallb_forall.
   intros h Hin. specialize (H h Hin). destruct h; try reflexivity. discriminate H.
 Qed.
+
+(* every admissible step preserves the jar invariant and is admissible for the ghost *)
+Theorem step_JI w g h j :
+  JI w g -> c_json (conf (w_st w)) = j -> wf_hop j h = true -> c01_hop false h = true ->
+  JI (fst (step w h)) (snd (g_step g h (snd (step w h)))) /\
+  fst (g_step g h (snd (step w h))) = true /\
+  c_json (conf (w_st (fst (step w h)))) = j.
+Proof.
+  intros HJ Hj Hh Hch.
+  destruct (step_Inv w h j (ji_inv _ _ HJ) Hj Hh) as (_ & Hj').
+  assert (Hstep : JI (fst (step w h)) (snd (g_step g h (snd (step w h)))) /\
+                  fst (g_step g h (snd (step w h))) = true).
+  { destruct (is_req h) eqn:Er.
+    - destruct h as [r| | | | | | |]; try discriminate Er.
+      apply (step_req_JI w g r j HJ Hj Hh). apply c01_wf_pjar. exact Hch.
+    - apply (step_other_JI w g h j HJ Hj Hh Er). }
+  destruct Hstep as [A B]. auto.
+Qed.
+
+Lemma JI_meaning w g :
+  JI w g <->
+  Inv noex (w_st w) /\ GR (w_st w) /\ HistInv3.winv 0 HistInv.ND (w_st w) /\
+  (forall c, jar_ok (w_st w) (jar_of (w_jars w) c) (g_get g c)) /\
+  (forall c c' k, c <> c' -> jar_of (w_jars w) c = CKey k -> jar_of (w_jars w) c' <> CKey k).
+Proof.
+  split.
+  - intros [A B C D E]. auto.
+  - intros (A & B & C & D & E). constructor; assumption.
+Qed.
+
+Lemma jar_ok_meaning s jar x :
+  jar_ok s jar x <->
+  match x with
+  | None => jar = CNone
+  | Some d => exists k, jar = CKey k /\ key_drawn s k /\ (forall dd, ~ In (dd, k) (pending s)) /\
+                        (view s k = None \/ view s k = Some (None, d))
+  end.
+Proof. reflexivity. Qed.
+
+Lemma view_meaning s k :
+  view s k = option_map (fun r => (r_ref r, content_of r)) (L s k).
+Proof. reflexivity. Qed.
+
+Lemma GR_meaning s :
+  GR s <->
+  (forall k x, In (k, x) (graves s) -> key_drawn s k /\ view s k = None) /\
+  (forall d k, In (d, k) (pending s) -> key_drawn s k) /\
+  NoDup (map fst (store s)).
+Proof. reflexivity. Qed.
